@@ -377,6 +377,7 @@ def run(ctx):
     c018(ctx)
     c019(ctx)
     c0110(ctx)
+    c0111(ctx)
 
 
 # ---------------------------------------------------------------------- C01.5 seq cell typestate
@@ -764,6 +765,43 @@ def c0110(ctx):
                 ok, why = False, 'no once-only claim (atomic read-modify-write whose result is branched on) dominates the start of the run'
                 break
         ctx.ob('C01.10', f, 'one-run-per-handle', ok, 'run_session is started here: %s' % why, line=st.line)
+
+
+# ---------------------------------------------------------------------- C01.11 a thread is created once
+def c0111(ctx):
+    P = ctx.prog
+    ctx.rule('C01.11', 'a thread is created once: create_continuity writes the creation frame with seq 0 and resets the seq table entry, so the id it is handed is '
+             'fresh at every call site — None (generated inside), or a value whose only sources are Uuid::new_v4 (through to_string / clone). An id read from the index, '
+             'a cache or a request names a stream that may already have frames; creating it again restarts that stream at 0.')
+    FRESH = r'^uuid::Uuid::new_v4$|^uuid::v4::<impl uuid::Uuid>::new_v4$|::to_string$|::clone$|::into$|::from$|::to_owned$|::hyphenated$|::simple$'
+    cs = [c for c in P.callers(r'^ripd::continuities::ContinuityStore::create_continuity$') if c.fn.crate == 'ripd']
+    ctx.floor('C01.11', 'call sites of create_continuity', len(cs), 3)
+    for c in cs:
+        f = c.fn
+        if len(c.args) < 3:
+            raise CheckError('C01.11: create_continuity has lost its id parameter')
+        srcs = sources(f, c.args[2])
+        bad = []
+        for sr in srcs:
+            if sr[0] == 'agg' and sr[1].endswith('Option::None'):
+                continue
+            if sr[0] == 'agg' and sr[1].endswith('Option::Some'):
+                # the payload of the Some built in block sr[2]
+                for st in f.blocks[sr[2]]['s']:
+                    rv = st.get('rv')
+                    if rv and rv['k'] == 'agg' and rv.get('variant') == 'Some' and rv['a']:
+                        for s2 in sources(f, rv['a'][0]):
+                            if s2[0] == 'call' and re.search(FRESH, s2[1]):
+                                continue
+                            bad.append(s2)
+                continue
+            bad.append(sr)
+        has_uuid = (not bad) and (all(x[0] == 'agg' and x[1].endswith('None') for x in srcs) or any(re.search(r'new_v4$', s_.callee) for s_ in f.sites()))
+        ok = not bad and has_uuid
+        ctx.ob('C01.11', f, 'fresh-thread-id', ok,
+               'the id handed to create_continuity is %s' % ('None or freshly generated (Uuid::new_v4)' if ok else
+               'NOT only a fresh uuid — it also comes from %s: an existing thread would be created a second time, its stream restarting at seq 0' % ', '.join(sorted({str(b[1]) if len(b) > 1 else str(b) for b in bad})[:3])),
+               line=c.line)
 
 
 # ---------------------------------------------------------------------- C01.9 who may write the seq table
